@@ -163,6 +163,12 @@ type solver struct {
 	errors  int
 	quickMs int // incremental limit
 	slowMs  int // one-shot limit
+	// differential re-checking: every diffEvery-th decided query is re-run, from the recorded
+	// script, in a one-shot process of a different solver (cvc5 1.0; z3 4.8.12 when cvc5 is the
+	// main solver) and the verdicts are compared
+	diffEvery, diffMax                             int
+	diffSampled, diffAgreed, diffOther, diffBad    int
+	diffBadScript                                  string
 }
 
 func newSolver(kind solverKind, timeoutMs int) (*solver, error) {
@@ -290,7 +296,50 @@ func (s *solver) check() satResult {
 		res = resUnknown
 	}
 	s.time += time.Since(t0)
+	if s.diffEvery > 0 && res != resUnknown && s.queries%s.diffEvery == 0 && s.diffSampled < s.diffMax {
+		s.differential(res)
+	}
 	return res
+}
+
+// differential re-runs the current assertion stack in another solver and compares verdicts.
+func (s *solver) differential(got satResult) {
+	other := solverCVC5
+	if s.kind == solverCVC5 {
+		other = solverZ3
+	}
+	p, err := startProc(other)
+	if err != nil {
+		return
+	}
+	defer p.kill()
+	s.diffSampled++
+	if other == solverCVC5 {
+		p.send("(set-logic QF_BV)")
+		p.send("(set-option :tlimit-per 10000)")
+	} else {
+		p.send("(set-option :timeout 10000)")
+	}
+	var script []string
+	for _, lvl := range s.lines {
+		for _, l := range lvl {
+			p.send(l)
+			script = append(script, l)
+		}
+	}
+	p.send("(check-sat)")
+	res, errs := p.readVerdict()
+	switch {
+	case errs > 0 || res == resUnknown:
+		s.diffOther++
+	case res == got:
+		s.diffAgreed++
+	default:
+		s.diffBad++
+		if s.diffBadScript == "" {
+			s.diffBadScript = strings.Join(script, "\n")
+		}
+	}
 }
 
 // fallback re-runs the current assertion stack in a fresh one-shot process.
